@@ -238,6 +238,28 @@ def random_config(rng, nmin=4, nmax=7):
     return cfg
 
 
+def debug_selection_config(rng):
+    """An executor restricted to target nodes, with RUN_DEBUG_NODES on and prioritised debug nodes hanging below
+    the selected leaves (they are pulled into the run and compete with ordinary nodes)."""
+    n = rng.randint(4, 6)
+    nreg = rng.randint(2, n - 2)
+    deps = []
+    for k in range(1, n + 1):
+        if k <= nreg:
+            deps.append([j for j in range(1, k) if rng.random() < 0.4])
+        else:
+            base = [j for j in range(1, nreg + 1) if rng.random() < 0.5] or [rng.randint(1, nreg)]
+            deps.append(sorted(set(base + [j for j in range(nreg + 1, k) if rng.random() < 0.3])))
+    debug = [k > nreg for k in range(1, n + 1)]
+    targets = sorted({d for k in range(nreg + 1, n + 1) for d in deps[k - 1] if d <= nreg})
+    cfg = {"n": n, "deps": deps, "mc": rng.choice([1, 1, 2]), "prio": [rng.choice([0, 1, 2, 5, 9]) for _ in range(n)],
+           "seq": [False] * n, "res": [rng.choice(RESOURCES) for _ in range(n)], "bad": [], "act": [None] * n, "truthy": [True] * n,
+           "setup": [False] * n, "debug": debug, "run_debug": True, "ops": [["exec", {"t": targets}]],
+           "kw": [[False] * len(d) for d in deps], "fn": list(range(1, n + 1)), "flavour": rng.choice(["sync", "async"])}
+    cfg["cid"] = cfg_key(cfg)
+    return cfg
+
+
 # ------------------------------------------------------------------ projection of a run to traces
 def project(cfg, run):
     """Split the event log of a history into one trace per execution (op) with its expected sets."""
